@@ -5,6 +5,10 @@ pub fn dispatch(v: &Value) -> Value {
         "bdd_script" => bdd_script(v),
         "adf_sem" => adf_sem(v),
         "iter" => iter_cmd(v),
+        #[cfg(feature = "server_dto")]
+        "graph" => crate::server_cmds::graph_cmd(v),
+        #[cfg(feature = "server_dto")]
+        "db_roundtrip" => crate::server_cmds::db_roundtrip(v),
         "compile" => compile_cmd(v),
         "sem_text" => sem_text(v),
         "adf_persist" => adf_persist(v),
